@@ -36,8 +36,9 @@ WriteViol(t) ==
          \cup (IF t.ret = "ok" /\ t.kind = "insert" /\ t.after # 1 THEN {<<l, "FalseAck">>} ELSE {})
     [] t.path = "remote-ok" ->
          (IF t.ret = "ok" /\ t.remote = 1 THEN {} ELSE {<<l, "ProxyLost">>})
-    [] t.path \in {"remote-err", "noaddr"} ->
+    [] t.path \in {"remote-err", "noaddr", "down"} ->    \* down: the owner's address refuses connections, the caller set no time limit
          (IF t.ret = "ok" THEN {<<l, "FalseAck">>} ELSE {})
+         \cup (IF t.ret = "hang" THEN {<<l, "NoAnswer">>} ELSE {})
          \cup (IF t.remote = 0 THEN {} ELSE {<<l, "FalseAck">>})
     [] t.path = "baddim" ->
          (IF t.ret = "dim" /\ t.remote = 0 /\ t.after = t.before THEN {} ELSE {<<l, "DimNotRejected">>})
